@@ -51,7 +51,8 @@ func wkbBytes(items []wkbItem) ([]byte, bool) {
 	return out, true
 }
 
-func c05hex(c *Ctx, rule string) {
+// totalRule, when not empty, also files the totality of hex.Decode on malformed texts (C07).
+func c05hex(c *Ctx, rule, totalRule string) {
 	enc, dec := c.P.Func("encoding/hex", "Encode"), c.P.Func("encoding/hex", "Decode")
 	wenc, wdec := c.P.Func("encoding/wkb", "Encode"), c.P.Func("encoding/wkb", "Decode")
 	if c.P.Decl(enc) == nil || c.P.Decl(dec) == nil || c.P.Decl(wenc) == nil || c.P.Decl(wdec) == nil {
@@ -280,6 +281,56 @@ func c05hex(c *Ctx, rule string) {
 			text, _ := strOf(res[0])
 			ev.bad = fmt.Sprintf("hex.Encode returns %q and no error when wkb.Encode returns an error", text)
 		}
+	}
+	// malformed texts: nothing panics; a text whose bytes are not a message gives an error
+	if totalRule != "" {
+		var tv verdict
+		g := w.geoms()[0]
+		ref := g.layout("L", func(int) string { return "L" }, 0)
+		raw, _ := wkbBytes(ref)
+		hexStreamBytes, hexStreamText = string(raw), hex.EncodeToString(raw)
+		texts := []string{"", "0", "1", "z", "\\", "x", "\\x", "0g", "g0", "zz", "0z0", "\\x0", " ", "  ", "0 ", "\n", "\x00", "\x00\x00", "00", "01", "0101", strings.ToUpper(hexStreamText)}
+		for k := 0; k < len(hexStreamText); k++ {
+			texts = append(texts, hexStreamText[:k])
+		}
+		texts = append(texts, hexStreamText+"0", hexStreamText+"00", hexStreamText+"zz")
+		n := 0
+		for _, t := range texts {
+			if tv.bad != "" || tv.unk != "" {
+				break
+			}
+			w.reset(nil)
+			delegate.on, delegate.decoded, delegate.decArgs = true, w.m.it.ifaceOf(w.value(g)), nil
+			got, why := w.m.it.Call(dec, nil, []oval{strVal(strT, t)}, 0)
+			delegate.on = false
+			runs++
+			n++
+			what := fmt.Sprintf("hex.Decode(%q)", t)
+			valid := false
+			if b, err := hex.DecodeString(t); err == nil && string(b) == hexStreamBytes {
+				valid = true
+			}
+			switch {
+			case why != "":
+				classify(&tv, what, why)
+			case len(got) != 2:
+				tv.unk = what + " returns " + fmt.Sprint(len(got)) + " values"
+			case valid:
+				// the text of a message in the other letter case: either answer is a geometry or an error
+			case isNil(got[1]):
+				if _, isTop := got[1].(oTop); isTop {
+					tv.unk = what + " returns the error " + showVal(got[1])
+				} else {
+					tv.bad = what + " returns " + showVal(got[0]) + " and no error although the text is not the hexadecimal form of a message"
+				}
+			default:
+				if eq, ok := oEqual(got[1], oNil{}); !ok {
+					_ = eq
+					tv.unk = what + " returns the error " + showVal(got[1])
+				}
+			}
+		}
+		report3(c, totalRule, "encoding/hex.Decode#malformed", c.P.Decl(dec).Pos(), tv.bad, tv.unk, fmt.Sprintf("%d malformed texts (empty, one character, not hexadecimal, odd length, every truncation of the text of a Point message, trailing characters): an error each time, no panic", n))
 	}
 	c.Evals(runs)
 	report3(c, rule, "encoding/hex.Encode", c.P.Decl(enc).Pos(), ev.bad, ev.unk, "the lower-case hexadecimal text of exactly wkb.Encode's stream, for every model geometry in both byte orders; an error where wkb.Encode gives one")
